@@ -263,3 +263,21 @@ mtext("C06",
       "trusted: fiber scheduler, shim macros (comma expression: scheduling point then the real builtin with the requested order), interval-based owner oracle, linearizability checker (<= 24 operations per history)",
       "deterministic simulation: seeded scheduler over cooperative fibers at atomic-operation granularity; invariants on the event sequence + linearizability check against a sequential owner-count model",
       "DESIGN.md 4.C06")
+
+check("C11", "exploration",
+      [dict(world="sort", mode=11, variants={"rel": 0.7, "asan": 0.3}, quick=60000, thorough=6000000)],
+      "one evaluation = one seeded plan: 1-3 rounds of {fill a raw array (patterns: random over 1..3000 values, sorted, reversed, constant, two-valued, organ-pipe, saw-tooth; lengths 0..8 / 0..64 / 0..4096), linear finds, optional reverse, "
+      "1-2 sorts with a seeded selector (four named algorithms and four out-of-range values) and either cstl_swap or a checking swap callback, binary searches and finds on the result}; rand() is the simulator's (uniform, or bounded adversarial streaks of pivot-last values); "
+      "distinct = distinct plan hash; non-trivial = the last array had >= 2 elements",
+      ["src/array.c (raw array functions)", "include/cstl/common.h (cstl_swap)"],
+      stubs=["rand() (seeded stream; sticky mode repeats 0, RAND_MAX, 720719, small integers in streaks of at most 8 draws followed by a uniform draw)"],
+      required_probes=["selector_out_of_range", "rand_calls", "custom_swap_checked", "probe_present", "probe_absent", "single_element_probe", "reverse", "large_array", "few_distinct_values"],
+      assumptions=["apart from the pivot stream and the callbacks this is input generation; the exhaustive small-alphabet enumeration named in the property's quantifier is NOT done",
+                   "an unbounded adversarial rand() (constant forever) makes the randomised variant recurse without bound; excluded as outside rand()'s contract"])
+mtext("C11",
+      "Seeded arrays (element sizes 1,2,4,8,3,5,16,24; keys in the first 1-2 bytes, an identity in the rest so that lost/duplicated/torn elements show) sorted by every selector value; the output must be byte-for-byte a permutation of the input and non-decreasing; "
+      "the array and the scratch element are separate sim-heap blocks whose canaries are the red zones (ASan in 30% of runs); every pointer handed to the comparison and (checking) swap callbacks must be an array element or the scratch slot; a comparison-count cap of 64*(n+16)^2 catches a partition that stops making progress. "
+      "Binary search on the sorted result, linear find on any array, and reverse are checked against direct scans. The one real simulator seam is rand(): the randomised quicksort's pivot stream is seeded, including bounded adversarial streaks. Honest scope: mostly seeded input generation.",
+      "trusted: direct-scan reference for search/find/reverse, multiset comparison by sorting copies with libc qsort",
+      "deterministic simulation (degenerate apart from the seeded rand() stream and checking callbacks): seeded inputs vs reference",
+      "DESIGN.md 4.C11")
